@@ -141,7 +141,7 @@ def check_errors(errors, files, main, what):
                 continue
             head = m.message.split("\n")[0][:80]
             if loc.is_synthetic:
-                bad.append(("synthetic-location-shown:" + msg_kind(m)[:48],
+                bad.append(("synthetic-location-shown:" + msg_kind(g[0])[:48],
                             "%s: message %r has a synthetic location (rendered as [compiler bug])" % (what, head)))
                 continue
             f = m.source_file
@@ -165,7 +165,7 @@ def check_errors(errors, files, main, what):
             if p is None and not (loc.start <= loc.end):
                 p = "start after end"
             if p:
-                bad.append(("position-outside-file:" + msg_kind(m)[:48],
+                bad.append(("position-outside-file:" + msg_kind(g[0])[:48],
                             "%s: message %r at %s in %r: %s" % (what, head, loc, f, p)))
     return bad
 
@@ -197,8 +197,9 @@ def run_case(case, want_model_lines=True):
     """Run one input through every in-process entry point.  Returns a dict; never raises."""
     files, main = case["files"], case["main"]
     res = {"kind": case["kind"], "outcome": None, "bad": [], "kinds": [], "fmt": None}
-    old = signal.signal(signal.SIGALRM, _alarm)
-    signal.alarm(case.get("timeout", CASE_TIMEOUT))
+    # CPU-time budget (ITIMER_PROF), not wall time: immune to the load of a shared machine
+    old = signal.signal(signal.SIGPROF, _alarm)
+    signal.setitimer(signal.ITIMER_PROF, case.get("timeout", CASE_TIMEOUT))
     try:
         _run_case(case, files, main, res, want_model_lines)
     except _Timeout:
@@ -206,10 +207,10 @@ def run_case(case, want_model_lines=True):
         key = "timeout"
         if any(HUGE_SIZE.search(t) for t in files.values()):
             key = "timeout:constant-field-size>=10^6"
-        res["bad"].append((key, "no result within %d s" % case.get("timeout", CASE_TIMEOUT)))
+        res["bad"].append((key, "no result within %d s of CPU time" % case.get("timeout", CASE_TIMEOUT)))
     finally:
-        signal.alarm(0)
-        signal.signal(signal.SIGALRM, old)
+        signal.setitimer(signal.ITIMER_PROF, 0)
+        signal.signal(signal.SIGPROF, old)
     try:
         if len(glue._cached_modules) > 200:     # private speed-up cache; keep memory bounded
             for k in [k for k in glue._cached_modules if k[1] != ""]:
@@ -895,7 +896,7 @@ def exploration(chk, tier, with_model):
                 ex.record(case, {"kind": case["kind"], "outcome": res["outcome"], "bad": [(key, desc)],
                                  "kinds": [], "fmt": None})
     first = load_corpus() + testdata_cases() + gen.boundary_cases()
-    n = 1500 if tier == "quick" else 60000
+    n = 1500 if tier == "quick" else 25000
     cases = first + [gen.pick(r) for _ in range(n)]
     t0 = time.time()
     ex.run(cases, procs=4)
